@@ -982,10 +982,14 @@ def any_scale(tbl, u):
 
 
 def rel_close(x, y, rel):
-    x, y = float(x), float(y)
     if x == y:
         return True
-    return abs(x - y) <= rel * max(abs(x), abs(y))
+    try:
+        x, y = Fraction(x), Fraction(y)          # exact; no overflow for huge magnitudes
+    except (ValueError, OverflowError, TypeError):
+        x, y = float(x), float(y)
+        return abs(x - y) <= rel * max(abs(x), abs(y))
+    return abs(x - y) <= Fraction(rel) * max(abs(x), abs(y))
 
 
 # float-exact replica of Quantity::convert_to for ONE-factor units with different
